@@ -1,7 +1,7 @@
 ------------------------------ MODULE Trace_C08 ------------------------------
 (* Trace validation for C08: verdict = ResponseCheck!Accepts(case); the bytes readable    *)
 (* from the response body after validation are the bytes supplied.                        *)
-EXTENDS ResponseCheck, FindingsC08, Json, CSV
+EXTENDS FindingsC08, Json, CSV
 
 Trace == ndJsonDeserialize("trace.ndjson")
 VARIABLE l
